@@ -14,19 +14,19 @@ pub fn plan(tier: Tier) -> Plan {
     let mut checks: Vec<Box<dyn Check>> = Vec::new();
     let alphas: &[(&str, usize, usize)] = &[
         // (alphabet, quick depth, thorough depth)
-        ("two01", 8, 14),
-        ("two13", 8, 14),
-        ("two9", 8, 14),
-        ("ap", 6, 9),
-        ("small", 6, 8),
-        ("dec", 6, 8),
-        ("off9", 6, 9),
-        ("off11", 6, 9),
-        ("negoff", 7, 10),
-        ("mixed", 6, 8),
-        ("tail", 6, 9),
-        ("tiny", 6, 8),
-        ("large", 6, 8),
+        ("two01", 12, 20),
+        ("two13", 12, 20),
+        ("two9", 12, 20),
+        ("ap", 8, 11),
+        ("small", 7, 9),
+        ("dec", 7, 9),
+        ("off9", 8, 11),
+        ("off11", 8, 11),
+        ("negoff", 9, 12),
+        ("mixed", 7, 9),
+        ("tail", 8, 11),
+        ("tiny", 7, 9),
+        ("large", 7, 9),
     ];
     for (a, q, t) in alphas {
         let d = if tier == Tier::Quick { *q } else { *t };
